@@ -6,6 +6,7 @@ import codec_common as CC
 import gen_asn1 as G
 import lib
 import xcodec as X
+import boundary
 
 
 def run(ctx):
@@ -46,6 +47,8 @@ def run(ctx):
                     prefixes.append((c, e[1][:kk]))
         if codec in mods:
             CC.corr_decode_bytes(ctx, mods[codec], prefixes[:600 if ctx.quick else 6000], tag='corr-prefix')
+    boundary.run(ctx, X.BINARY, {}, truncation=True, roundtrip=False,
+                 lengths='quick' if ctx.quick else None)
     for f in common.load_findings(ctx.pid):
         w = f['witness']
         spec = lib.compile_string(w['spec'], w['codec'])
